@@ -9,6 +9,9 @@
 (*   Write(n)   append n bytes: in place while they fit, else grow - copy  *)
 (*              the used part into a new array (the old one is no longer   *)
 (*              written)                                                   *)
+(*   Reserve(n) make room for n bytes at once (encodeBytes sizes the base64 *)
+(*              text beforehand): nothing to do while they fit, else a new  *)
+(*              array of len + n bytes (and some slack) takes the used part *)
 (*   Rewrite    rewrite bytes in [start, len) in place (the ,string        *)
 (*              option quotes what the inner encoder wrote)                *)
 (*   Rollback   an error: truncate to start                                *)
@@ -24,7 +27,10 @@
 (***************************************************************************)
 EXTENDS Naturals, Sequences, FiniteSets, TLC, Json
 
-CONSTANTS Prefixes, MaxOps, MaxWrite, Emit
+CONSTANTS Prefixes, MaxOps, MaxWrite, Emit,
+          ReservePolicy   \* "fromend": the new capacity is counted from len (as the code does); "fromstart": from the
+                          \* size of what is to be written alone - the deviation a seeded change made: make(len, cap)
+                          \* with cap < len panics once the prefix is longer than the text
 
 SpareClasses == {"none", "n-1", "n", "n+1", "big"}
 
@@ -32,18 +38,19 @@ VARIABLES P, cap, len, inCaller,   \* prefix length, capacity, length, still wri
           starts,                  \* stack of start offsets of nested encoders
           lowest,                  \* ghost: lowest offset written in the caller's array (cap + 1000 = none)
           prefixIntact,            \* ghost: the first P bytes of the current array are the caller's
-          ops
-vars == <<P, cap, len, inCaller, starts, lowest, prefixIntact, ops>>
+          ops,
+          panicked                 \* ghost: an allocation was asked for a capacity below the length it must hold
+vars == <<P, cap, len, inCaller, starts, lowest, prefixIntact, ops, panicked>>
 
 None == 100000
 
 Init == /\ P \in Prefixes /\ \E spare \in 0..(MaxWrite + 1) : cap = P + spare
-        /\ len = P /\ inCaller = TRUE /\ starts = <<>> /\ lowest = None /\ prefixIntact = TRUE /\ ops = 0
+        /\ len = P /\ inCaller = TRUE /\ starts = <<>> /\ lowest = None /\ prefixIntact = TRUE /\ ops = 0 /\ panicked = FALSE
 
 Min(a, b) == IF a < b THEN a ELSE b
 
 Enter == /\ ops < MaxOps /\ starts' = Append(starts, len) /\ ops' = ops + 1
-         /\ UNCHANGED <<P, cap, len, inCaller, lowest, prefixIntact>>
+         /\ UNCHANGED <<P, cap, len, inCaller, lowest, prefixIntact, panicked>>
 
 Write(n) ==
   /\ ops < MaxOps /\ ops' = ops + 1
@@ -52,30 +59,48 @@ Write(n) ==
           /\ UNCHANGED <<cap, inCaller, prefixIntact>>
      ELSE /\ len' = len + n /\ cap' = 2 * (len + n)            \* grow: copy [0, len) to a new array
           /\ inCaller' = FALSE /\ UNCHANGED <<lowest, prefixIntact>>
-  /\ UNCHANGED <<P, starts>>
+  /\ UNCHANGED <<P, starts, panicked>>
+
+Reserve(n) ==
+  /\ ops < MaxOps /\ ops' = ops + 1
+  /\ IF cap - len >= n
+     THEN UNCHANGED <<cap, inCaller, panicked>>
+     ELSE LET newcap == (IF ReservePolicy = "fromend" THEN len ELSE 0) + n + (n \div 4) IN
+          IF newcap < len
+          THEN panicked' = TRUE /\ UNCHANGED <<cap, inCaller>>
+          ELSE cap' = newcap /\ inCaller' = FALSE /\ UNCHANGED panicked
+  /\ UNCHANGED <<P, len, starts, lowest, prefixIntact>>
 
 Rewrite == /\ ops < MaxOps /\ starts # <<>> /\ ops' = ops + 1
            /\ lowest' = (IF inCaller /\ starts[Len(starts)] < len THEN Min(lowest, starts[Len(starts)]) ELSE lowest)
-           /\ UNCHANGED <<P, cap, len, inCaller, starts, prefixIntact>>
+           /\ UNCHANGED <<P, cap, len, inCaller, starts, prefixIntact, panicked>>
 
 Rollback == /\ ops < MaxOps /\ starts # <<>> /\ ops' = ops + 1
             /\ len' = starts[Len(starts)] /\ starts' = SubSeq(starts, 1, Len(starts) - 1)
-            /\ UNCHANGED <<P, cap, inCaller, lowest, prefixIntact>>
+            /\ UNCHANGED <<P, cap, inCaller, lowest, prefixIntact, panicked>>
 
 Leave == /\ ops < MaxOps /\ starts # <<>> /\ ops' = ops + 1
          /\ starts' = SubSeq(starts, 1, Len(starts) - 1)
-         /\ UNCHANGED <<P, cap, len, inCaller, lowest, prefixIntact>>
+         /\ UNCHANGED <<P, cap, len, inCaller, lowest, prefixIntact, panicked>>
 
-Next == Enter \/ (\E n \in 1..MaxWrite : Write(n)) \/ Rewrite \/ Rollback \/ Leave
+Next == Enter \/ (\E n \in 1..MaxWrite : Write(n) \/ Reserve(n)) \/ Rewrite \/ Rollback \/ Leave
 Spec == Init /\ [][Next]_vars
 
 NeverBelowPrefix == lowest >= P
 LengthKeepsPrefix == len >= P
 StartsAbovePrefix == \A i \in 1..Len(starts) : starts[i] >= P /\ starts[i] <= len
 ResultStartsWithPrefix == prefixIntact /\ len >= P
+NoPanic == ~panicked
+\* a reservation leaves room for what it was asked for
+RoomAfterReserve == [][\A n \in 1..MaxWrite : Reserve(n) /\ ~panicked' => cap' - len' >= n]_vars
+
+\* prefix lengths relative to the size n of what is written (a reservation counted from the wrong end only shows when
+\* the prefix is longer than the text and its slack)
+RelPrefixes == {"n/4", "n", "n+n/4", "n+n/4+2", "n+n/2", "2n"}
 
 \* configurations replayed on the real Append: emitted once per initial state (prefix length) with every
 \* spare-capacity class and AppendFlags subset
 EmitConfig == (Emit /\ ops = 0 /\ cap = P) =>
-   PrintT(ToJson([prefix |-> P, spares |-> SpareClasses, flagsets |-> SUBSET {"EscapeHTML", "SortMapKeys", "TrustRawMessage"}]))
+   PrintT(ToJson([prefix |-> P, spares |-> SpareClasses, flagsets |-> SUBSET {"EscapeHTML", "SortMapKeys", "TrustRawMessage"},
+                   rel |-> RelPrefixes]))
 =============================================================================
